@@ -132,6 +132,7 @@ pub fn run_script(o: &RunOpts) -> Result<usize, String> {
                             ev["i"] = json!(opi);
                             ev["outcome"] = json!("panic");
                             ev["msg"] = json!(format!("worker died: {st} {}", es.chars().take(300).collect::<String>()));
+                            crate::exec::denull(&mut ev);
                             writeln!(trace, "{ev}").map_err(|e| format!("{e}"))?;
                             nev += 1;
                             aborted = true;
@@ -149,6 +150,7 @@ pub fn run_script(o: &RunOpts) -> Result<usize, String> {
                         ev["ev"] = name;
                         ev["i"] = json!(opi);
                         ev["outcome"] = json!("hang");
+                        crate::exec::denull(&mut ev);
                         writeln!(trace, "{ev}").map_err(|e| format!("{e}"))?;
                         nev += 1;
                         hang = true;
